@@ -3,6 +3,7 @@ From Coq Require Import List String.
 From VQ.Gen Require Import w_lfq.
 Import ListNotations.
 Open Scope string_scope.
-Lemma pin_w_lfq : w_lfq =
+Definition pinned_w_lfq : list string :=
   [].
+Lemma pin_w_lfq : w_lfq = pinned_w_lfq.
 Proof. reflexivity. Qed.
